@@ -15,6 +15,7 @@ import (
 	"time"
 
 	objectwire "github.com/nspcc-dev/neofs-node/internal/object"
+	"github.com/nspcc-dev/neofs-node/internal/verifhook"
 	"github.com/nspcc-dev/neofs-node/pkg/local_object_storage/blobstor/common"
 	"github.com/nspcc-dev/neofs-node/pkg/local_object_storage/util/logicerr"
 	"github.com/nspcc-dev/neofs-node/pkg/util"
@@ -292,6 +293,7 @@ func (t *FSTree) Delete(addr oid.Address) error {
 		return common.ErrReadOnly
 	}
 
+	verifhook.Point("fstree.delete.stat.before")
 	p, err := t.getPath(addr)
 	if err != nil {
 		if errors.Is(err, fs.ErrNotExist) {
@@ -300,7 +302,9 @@ func (t *FSTree) Delete(addr oid.Address) error {
 		return err
 	}
 
+	verifhook.Point("fstree.delete.remove.before")
 	err = os.Remove(p)
+	verifhook.Point("fstree.delete.remove.after")
 	if err != nil {
 		if errors.Is(err, fs.ErrNotExist) {
 			return logicerr.Wrap(apistatus.ObjectNotFound{})
@@ -351,6 +355,7 @@ func (t *FSTree) Put(addr oid.Address, data []byte) error {
 
 	p := t.treePath(addr)
 
+	verifhook.Point("fstree.put.mkdir.before")
 	if err := util.MkdirAllX(filepath.Dir(p), t.Permissions); err != nil {
 		return fmt.Errorf("mkdirall for %q: %w", p, err)
 	}
@@ -374,6 +379,7 @@ func (t *FSTree) PutBatch(objs map[oid.Address][]byte) error {
 			continue
 		}
 		p := t.treePath(addr)
+		verifhook.Point("fstree.putbatch.mkdir.before")
 		if err := util.MkdirAllX(filepath.Dir(p), t.Permissions); err != nil {
 			return fmt.Errorf("mkdirall for %q: %w", p, err)
 		}
